@@ -73,8 +73,8 @@ def has_rtl_set(prog, rep):
         try:
             outs = m.run(st)
         except ip.AnalysisError as e:
-            rep.analysis_error("has-rtl", cls, e, b.where())
-            return None
+            # not the `find(pred).is_some()` shape: extract has_rtl as an automaton over the label instead
+            return has_rtl_automaton(prog, rep, b, names, e)
         if len(outs) != 1 or not isinstance(outs[0].value, ip.I):
             rep.ob("has-rtl", cls, False, "not a single boolean outcome")
             return None
@@ -83,6 +83,42 @@ def has_rtl_set(prog, rep):
     rep.ob("has-rtl", "RTL detection set", accepted == set(bs.RTLSET), "has_rtl is true for a label consisting of a character of class %s; RFC 5893: %s" % (sorted(accepted), sorted(bs.RTLSET)), b.where(), key="has-rtl|set", sample=True)
     # has_rtl must be an existential over the label: find(..).is_some() — the shape is checked by the world
     return accepted
+
+
+def has_rtl_automaton(prog, rep, b, names, first_error):
+    """has_rtl written as an explicit iteration (`chars().map(bidi_class).any(..)`, a for loop, ...): its loop
+    automaton must be the existential `some letter is in A`, with A read off the one-letter words."""
+    key = BIDI + "has_rtl"
+    w = au.CutWorld(prog, ("label",), {BIDI + "bidi_class": bidi_class_oracle(prog)})
+    try:
+        aut = au.extract(prog, w, key, [Str(("label",))], names, result_of=lambda o: bool(o.value.v) if isinstance(o.value, ip.I) else repr(o.value))
+    except ip.AnalysisError as e:
+        rep.analysis_error("has-rtl", "automaton", e, b.where())
+        return None
+    accepted = {a for a in names if au.run_word(aut, [a])[1] is True}
+    bad = None
+    if aut.initial.target is None:
+        bad = "returns %r without reading the label" % (aut.initial.result,)
+    else:
+        seen = {(aut.initial.target, False)}
+        work = [(aut.initial.target, False, ())]
+        while work and bad is None:
+            q, flag, word = work.pop()
+            for a in list(names) + [au.END]:
+                t = aut.delta[(q, a)]
+                f2 = flag or (a in accepted)
+                if a == au.END:
+                    if t.result is not flag:
+                        bad = "after the class word %s the result is %r, but %s" % (list(word), t.result, "a character of an accepted class occurred" if flag else "no character of an accepted class occurred")
+                elif t.target is None:
+                    if not (t.result is True and f2):
+                        bad = "returns %r right after the class word %s, before the rest of the label was inspected" % (t.result, list(word) + [a])
+                elif (t.target, f2) not in seen:
+                    seen.add((t.target, f2))
+                    work.append((t.target, f2, word + (a,)))
+    rep.ob("has-rtl", "has_rtl is an existential over the label's characters", bad is None, bad or "", b.where(), key="has-rtl|existential")
+    rep.ob("has-rtl", "RTL detection set", accepted == set(bs.RTLSET), "has_rtl is true for a label consisting of a character of class %s; RFC 5893: %s" % (sorted(accepted), sorted(bs.RTLSET)), b.where(), key="has-rtl|set", sample=True)
+    return accepted if bad is None else None
 
 
 def extract_sat(prog, rep):
